@@ -66,6 +66,9 @@ type Knobs struct {
 	// commit of the secondaries, asynchronous pessimistic rollback, asynchronous lock resolution; yield points
 	// "go.*" of the verif hook) starts late, by 50 us .. 3 s of simulated time drawn from the run's seed
 	GoDelayPm int `json:"go_delay_pm,omitempty"`
+	// Latches > 0: every store runs with the local latch scheduler of that many slots (optimistic transactions of one
+	// store serialise their commits on it and are refused as stale when a newer commit passed)
+	Latches int `json:"latches,omitempty"`
 }
 
 // delaySites: failpoints of the library whose handler sleeps OUTSIDE the failpoint package (a `sleep(n)` term sleeps
